@@ -315,6 +315,9 @@ class Report:
         kf = load_known_findings()
         self.open_findings = [f for f in kf.get("open", []) if f.get("property") == prop_id]
         self._known_printed = set()
+        self._deferred = []
+        self.cap_found = 6
+        self.cap_nofound = 4
 
     # -- counting
     def count(self, key, n=1):
@@ -350,8 +353,11 @@ class Report:
             if f is not None:
                 self.known(f)
                 return False
+        same = [v for v in self.violations + self._deferred if v["found_input"] == found_input]
+        if len(same) >= (self.cap_found if found_input else self.cap_nofound):
+            return False
         os.makedirs(REPLAYS, exist_ok=True)
-        n = len(self.violations)
+        n = len(self.violations) + len(self._deferred)
         path = os.path.join(REPLAYS, "%s-%s-%d-%d.json" % (self.prop_id, self.tier, self.seed, n))
         with open(path, "w") as fh:
             json.dump(
@@ -366,17 +372,33 @@ class Report:
                 indent=1,
                 default=repr,
             )
-        self.violations.append({"replay": path, "note": note, "found_input": found_input, "signature": signature})
-        line = "VIOLATION property=%s replay=%s" % (self.prop_id, path)
+        v = {"replay": path, "note": note, "found_input": found_input, "signature": signature}
         if not found_input:
-            line += " no-failing-input-found"
-        print(line)
+            # a broken correspondence / proof is not yet a violation: it is reported at the end
+            # of the run only if the failing-input search produced no concrete replay
+            self._deferred.append(v)
+            return True
+        self.violations.append(v)
+        print("VIOLATION property=%s replay=%s" % (self.prop_id, path))
         print("  " + note[:600])
         sys.stdout.flush()
         return True
 
+    def flush_deferred(self):
+        if self._deferred and not self.violations:
+            for v in self._deferred:
+                self.violations.append(v)
+                print("VIOLATION property=%s replay=%s no-failing-input-found" % (self.prop_id, v["replay"]))
+                print("  " + v["note"][:600])
+        elif self._deferred:
+            self.extra["correspondence_breaks_explained_by_replays"] = [v["note"][:300] for v in self._deferred]
+            print("(%d model/implementation disagreements are explained by the failing inputs above)" % len(self._deferred))
+        self._deferred = []
+        sys.stdout.flush()
+
     # -- finish
     def finish(self, proof: ProofStatus | None):
+        self.flush_deferred()
         wall = time.time() - self.t0
         cov = {
             "obligations": proof.obligations if proof else 0,
@@ -412,7 +434,9 @@ class Report:
             "violations": len(self.violations),
         }
         os.makedirs(EVIDENCE, exist_ok=True)
-        with open(os.path.join(EVIDENCE, "%s.json" % self.prop_id), "w") as fh:
+        # development runs without the proof build/audit do not overwrite the evidence
+        name = "%s.json" % self.prop_id if proof is not None else ".nobuild-%s.json" % self.prop_id
+        with open(os.path.join(EVIDENCE, name), "w") as fh:
             json.dump(ev, fh, indent=1, default=repr, sort_keys=True)
         return 1 if self.violations else 0
 
